@@ -66,6 +66,54 @@ func c12CheckMap(ctx *Ctx, m map[int]int, kind string) {
 			ctx.Count("equidistant_requests", 1)
 		}
 	}
+	// second pass: a fan WITH PWM read-back (the controller may skip the write when the fan already reports the
+	// target value). Whatever the fan reported before, after setPwm it must hold map[k*]. Start values are the
+	// places where keys and values can be confused: every key, every output, and neighbours.
+	simRB := &SimFan{Id: uniqueId("c12fanrb"), CurveId: c12Curve.Id, Max: 255, HasPwm: true}
+	crb := newController(simRB, LoopSpec{Kind: "direct"}.build(), newMemPersistence(), m)
+	startSet := map[int]bool{}
+	for k, v := range m {
+		startSet[k], startSet[v], startSet[v+1], startSet[k-1] = true, true, true, true
+	}
+	var starts []int
+	for v := range startSet {
+		if v >= 0 && v <= 255 {
+			starts = append(starts, v)
+		}
+	}
+	sort.Ints(starts)
+	if len(starts) > 40 {
+		// full-size maps: a spread sample keeps the pass affordable
+		var sel []int
+		for i := 0; i < 40; i++ {
+			sel = append(sel, starts[i*len(starts)/40])
+		}
+		starts = sel
+	}
+	for _, cur := range starts {
+		for r := -50; r <= 305; r++ {
+			simRB.PwmVal = cur
+			var err error
+			panicked, msg := Guard(func() { err = crb.VerifSetPwm(r) })
+			ctx.Eval(1)
+			if panicked || err != nil {
+				ctx.Violation("panic-or-error-in-setPwm:readback:"+kind, fmt.Sprintf("map %v request %d fan at %d: %v %s", m, r, cur, err, msg), map[string]interface{}{"map": m, "request": r, "fanReports": cur})
+				return
+			}
+			ok := false
+			for _, k := range refNearest(supp, r) {
+				if simRB.PwmVal == m[k] {
+					ok = true
+				}
+			}
+			if !ok {
+				ctx.Violation("fan-with-readback-not-at-nearest-supported-value", fmt.Sprintf("%s map %v: fan reported %d, request %d: fan holds %d afterwards, nearest supported inputs %v", kind, m, cur, r, simRB.PwmVal, refNearest(supp, r)),
+					map[string]interface{}{"map": m, "request": r, "fanReports": cur})
+				return
+			}
+		}
+	}
+	ctx.Count("readback_start_values", int64(len(starts)))
 	if len(supp) >= 2 {
 		ctx.Nontrivial(kind + "|" + hash64(fmt.Sprint(m)))
 	}
